@@ -458,6 +458,9 @@ def k5_loop(sr, drv, G, W, U, R, ntrees: int, gen_cases, on_case=None, spec_for=
                     continue
                 st, ev = run_real(G, t, c.pats, c.flags, c.exclude, c.mode)
                 reply = drv.ask(model_line(t, c.flags, pe, ee, c.mode == 'bytes', c.mode == 'dir_fd', c.fuel))
+                if reply == 'timeout':
+                    sr.histogram['model-timeout (not a verdict)'] = sr.histogram.get('model-timeout (not a verdict)', 0) + 1
+                    continue
                 ms, mev = parse_model(reply, c.mode, t.root)
                 sr.evaluations += 1
                 seen.add((t.enc, repr(c.pats), c.flags, repr(c.exclude), c.mode))
